@@ -490,8 +490,29 @@ std::string Ctx::pureExpr(unsigned opc, User* U, std::function<std::string(Value
     }
 }
 
+bool gRefcountMovers = false;
+// reference-count shaped update: fetch_add(1) whose result is unused, or fetch_sub(1) whose result is only
+// compared against a constant (== 1 / == 0: "was I the last one")
+static bool isRefcountRMW(const Instruction& I)
+{
+    auto* R = dyn_cast<AtomicRMWInst>(&I);
+    if (!R) return false;
+    auto* K = dyn_cast<ConstantInt>(R->getValOperand());
+    if (!K || !(K->isOne() || K->isMinusOne())) return false;
+    bool inc = (R->getOperation() == AtomicRMWInst::Add && K->isOne()) || (R->getOperation() == AtomicRMWInst::Sub && K->isMinusOne());
+    bool dec = (R->getOperation() == AtomicRMWInst::Sub && K->isOne()) || (R->getOperation() == AtomicRMWInst::Add && K->isMinusOne());
+    if (inc) return R->use_empty();
+    if (!dec) return false;
+    for (const User* U : R->users())
+    {
+        auto* C = dyn_cast<ICmpInst>(U);
+        if (!C || !C->isEquality() || !(isa<ConstantInt>(C->getOperand(0)) || isa<ConstantInt>(C->getOperand(1)))) return false;
+    }
+    return true;
+}
 bool isVisibleInst(const Instruction& I)
 {
+    if (gRefcountMovers && isRefcountRMW(I)) return false;
     if (I.isAtomic()) return true;
     if (auto* CB = dyn_cast<CallBase>(&I))
         if (auto* F = CB->getCalledFunction())
